@@ -30,7 +30,38 @@ def corpus(thorough):
     out += c02.gen_B(c02.REPR_TRIPLES[:2], hows=('wait_all',))[:14] + c02.gen_D(c02.REPR_TRIPLES[:1], 2)
     out += c06.gen((1,), (1, 2) + ((4,) if thorough else ()), (None,), (3,), ['mix'], ['default'], reps=(1,))[:24]
     out += c16.gen((1,), (2,), [(3, 5)], ['dataset_before', 'pervar_value'], ['redef_add'], (0, 1))
+    out += meta_programs()
     return out
+
+
+def meta_programs():
+    """name-table histories (define, rename, add, delete, look up) whose results may not depend on the hash-table sizes"""
+    from engine.prog import Prog
+    from engine.model import data as D
+    progs = []
+    for np in (1, 2):
+        for variant in range(3):
+            p = Prog('META-np%d-%d' % (np, variant), np, 1)
+            p.do(dict(op='def_dim', name='x', len=2)); p.do(dict(op='def_dim', name='yy', len=3))
+            p.do(dict(op='def_var', name='v', xtype=D.NC_INT, dims=[0])); p.do(dict(op='def_var', name='w', xtype=D.NC_SHORT, dims=[1]))
+            for v in (-1, 0):
+                for k in range(5): p.do(dict(op='put_att', v=v, name='a%d' % k, xtype=D.NC_INT, vals=[100 + k]))
+                p.do(dict(op='rename_att', v=v, name='a%d' % variant, newname='b%d' % variant))
+                if variant != 1: p.do(dict(op='put_att', v=v, name='a9', xtype=D.NC_INT, vals=[9]))
+                p.do(dict(op='del_att', v=v, name='a%d' % (variant + 1)))
+                p.do(dict(op='rename_att', v=v, name='a4', newname='a%d' % (variant + 1)))
+            p.do(dict(op='rename_dim', d=0, name='z')); p.do(dict(op='rename_var', v=1, name='x'))
+            def lookups():
+                for v in (-1, 0):
+                    for a in p.m.attlist(v): p.rc_lines.append((p.case.op('*', 'get_att', f=0, v=v, name=a[0]), 0))
+            lookups()
+            p.do(dict(op='enddef')); p.checkpoint('enddef'); lookups()
+            p.do(dict(op='rename_att', v=0, name='a3', newname='c')); p.checkpoint('rename in data mode')
+            p.do(dict(op='redef')); p.do(dict(op='del_att', v=-1, name='a3')); p.do(dict(op='put_att', v=-1, name='a3', xtype=D.NC_BYTE, vals=[1, 2]))
+            p.do(dict(op='enddef')); p.checkpoint('second enddef')
+            p.do(dict(op='close')); p.checkpoint('close', closed=True)
+            progs.append(p)
+    return progs
 
 
 def image(r, s):
